@@ -119,6 +119,32 @@ def run(prop_id, tier, seed, replay=None):
             for x in marked or c:
                 if x['i'] not in cbad:
                     raise MachineryError(f'canary accepted: corrupted record {x["i"]} ({x.get("canary")}) was not rejected')
+    # further record streams of the same property that are validated against another trace specification (e.g. object histories
+    # next to per-case records): (trace module, shards, canary maker)
+    if hasattr(mod, 'extra_generate'):
+        first = max([r['i'] for r in flat] + [0]) + 1
+        for xi, (tm, xshards, mk_canary) in enumerate(mod.extra_generate(tier, seed, ctx, first)):
+            if only is not None:
+                xshards = [p for p in xshards if any(r.get('i') in only for r in p)]
+            xflat = [r for p in xshards for r in p]
+            for r in xflat:
+                r.setdefault('tags', [])
+            if not xflat:
+                continue
+            xbad, xs, xt = vlib.validate(tm, xshards, os.path.join(work, f'vx{xi}'), **vkw)
+            vstates, vtrans = vstates + xs, vtrans + xt
+            if not xbad and not replay:
+                xc = mk_canary([p for p in xshards if not any(r.get('i') in xbad for r in p)], crng)
+                if not xc:
+                    raise MachineryError(f'no canary could be built for {tm}')
+                cb, _, _ = vlib.validate(tm, xc, os.path.join(work, f'canaryx{xi}'), **vkw)
+                for c in xc:
+                    for x in [x for x in c if x.get('canary')]:
+                        if x['i'] not in cb:
+                            raise MachineryError(f'canary accepted by {tm}: corrupted record {x["i"]} ({x.get("canary")}) was not rejected')
+                canaries = canaries + xc
+            bad.update(xbad)
+            flat = flat + xflat
     log(f'[{prop_id}] validated {time.time() - t0:.1f}s: {len(bad)} records with failed clauses')
 
     for f in bg:
